@@ -16,6 +16,7 @@ func init() {
 		Explain: "Decides writer/reader agreement of the snapshot file, not a replay of a history: every line format written (append path and compaction) selects, under the reader's first-match prefix chain, the branch of the same record kind; verbs agree with parses (%d of a 64-bit unsigned ↔ ParseUint base 10/64 bits; two %s ↔ split at the LAST separator with key before / value after); the state field a record restores is the field whose change caused it to be written; every state field replay restores is serialised by compaction with the same formats (so compacted and uncompacted files replay equal); in-memory state is updated before the append (a compaction inside the append contains the event); Create witnesses the three restored clocks into the matching clocks and rejoins AliveNodes(). Line discipline: every %s argument must be newline-free by construction — the member name is not (known finding). Value equality of what is replayed and 'snapshot keeps up' are not decided.",
 		Run:     runC10,
 		Mutants: []Mutant{
+			{Name: "known-member-not-rerecorded", File: "serf/snapshot.go", Func: "func (s *Snapshotter) processMemberEvent(", Old: "\t\t\ts.aliveNodes[mem.Name] = addr.String()\n", New: "\t\t\tif _, known := s.aliveNodes[mem.Name]; known {\n\t\t\t\ts.aliveNodes[mem.Name] = addr.String()\n\t\t\t\tcontinue\n\t\t\t}\n\t\t\ts.aliveNodes[mem.Name] = addr.String()\n", Expect: "R6"},
 			{Name: "writer-renames-record", File: "serf/snapshot.go", Func: "func (s *Snapshotter) processQuery(", Old: "\"query-clock: %d\\n\"", New: "\"queryclock: %d\\n\"", Expect: "R1"},
 			{Name: "reader-shadowed-by-earlier-prefix", File: "serf/snapshot.go", Func: "func (s *Snapshotter) replay(", Old: "strings.CutPrefix(line, \"clock: \")", New: "strings.CutPrefix(line, \"\")", Expect: "R1"},
 			{Name: "reader-first-space", File: "serf/snapshot.go", Func: "func (s *Snapshotter) replay(", Old: "strings.LastIndex(info, \" \")", New: "strings.Index(info, \" \")", Expect: "R1"},
@@ -474,6 +475,32 @@ func runC10(c *an.Ctx) {
 		})
 		c.Add(ok, "R3", fn+":state-before-append:"+strings.TrimSpace(head), w.at, "the in-memory "+want+" is updated before the "+quoteS(head)+" line is appended (a compaction inside the append then contains it)", "dominance")
 	}
+
+	// ---- R6 a recorder writes its line whenever the event is of its kind (and, for clocks, newer): nothing
+	// else — in particular not what the in-memory state already holds — may suppress the record, or the
+	// file falls behind memory until the next compaction
+	c.Rule("R6 each recorder appends its line under no other condition than the event's type, the member loop and (for clocks) 'newer than recorded'")
+	nRec := 0
+	for _, w := range writes {
+		fn := an.FuncName(w.fn)
+		if fn == "(*Snapshotter).compact" || fn == "(*Snapshotter).stream" || fn == "NewSnapshotter" {
+			continue
+		}
+		nRec++
+		extra := ""
+		for _, f := range necessaryFacts(w.fn, w.at) {
+			switch {
+			case f.L == "$1.Type" && strings.HasPrefix(f.R, "c:"):
+			case strings.HasPrefix(f.L, "(phi:rangeindex@") || strings.HasPrefix(f.L, "phi:rangeindex@"):
+			case (f.L == "$1.LTime" || strings.HasPrefix(f.L, "((*LamportClock).Time($0.clock)")) && (f.Op == ">" || f.Op == ">=") && strings.HasPrefix(f.R, "$0.last"):
+			default:
+				extra += f.String() + "; "
+			}
+		}
+		head, _, _ := splitFormat(w.format)
+		c.Add(extra == "", "R6", fn+":records-unconditionally:"+strings.TrimSpace(head), w.at, "the "+quoteS(head)+" line is appended for every event of its kind (other conditions: "+extra+")", "necessary-edge enumeration")
+	}
+	c.Floor("R6", "recorder write sites", nRec, 5)
 
 	// ---- R4
 	if cr := sf(c, "R4", "Create"); cr != nil {
